@@ -166,9 +166,25 @@ package lower
 //
 //@ pred pow2(a) := a != 0 && (a & (a - 1)) == 0 && a <= 0x10000
 //
+//@ func getAlignAttribute
+//@   mode bv
+//@   tags C07
+//@   functional
+//@   pure
+//@   trusted
+//
+//@ func getSizeAttribute
+//@   mode bv
+//@   tags C07
+//@   functional
+//@   pure
+//@   trusted
+//
 //@ func (*Lowerer).lowerStruct
 //@   mode bv
 //@   tags C07
+//@   loop 1 step [explicit-align-honoured] getAlignAttribute(m.Attributes) > 0 ==> align == getAlignAttribute(m.Attributes)
+//@   loop 1 step [explicit-size-honoured] getSizeAttribute(m.Attributes) > 0 ==> size == getSizeAttribute(m.Attributes)
 //@   loop 1 step [offset-aligned] pow2(align) && prev(offset) <= 0x0FFFFFFF && size <= 0x0FFFFFFF ==> ((offset - size) & (align - 1)) == 0
 //@   loop 1 step [offset-minimal] pow2(align) && prev(offset) <= 0x0FFFFFFF && size <= 0x0FFFFFFF ==> offset - size >= prev(offset) && (offset - size) - prev(offset) < align
 //@   loop 1 step [member-recorded] members[rangeindex].Offset == offset - size && members[rangeindex].Type == typeHandle
